@@ -11,6 +11,7 @@
 #include <cppcms/service.h>
 #include "service_impl.h"
 #include "cppcms_error_category.h"
+#include <booster/verif_trace.h>
 #include <cppcms/json.h>
 #include <cppcms/cstdint.h>
 #include <stdlib.h>
@@ -861,6 +862,7 @@ namespace cgi {
 			void *ptr = inp.first;
 			size_t expected_read_size = inp.second;
 			cache_end_ += read_size;
+			BOOSTER_VERIF_EMIT("\"e\":\"Read\",\"api\":\"fcgi\",\"n\":%lu",(unsigned long)read_size);
 			if(e) {
 				cb(e,0);
 				return;
